@@ -13,11 +13,14 @@ package main
 
 import (
 	"bytes"
+	"errors"
 	"fmt"
+	"math"
 	"os"
 	"runtime"
 	"sort"
 	"strings"
+	"sync"
 	"time"
 
 	"github.com/biogo/hts/bam"
@@ -573,8 +576,8 @@ func ansClass(cs []bgzf.Chunk, err error) string {
 
 // judge applies the completeness clause to one answer of the implementation.
 func (cs *c04Case) judge(r *Result, phase string, q c04Query, accepted []bool, ans []bgzf.Chunk, err error) {
-	if q.Beg < 0 || q.Beg >= q.End {
-		return // not a query interval
+	if q.Beg >= q.End || (q.Beg < 0 && cs.Kind != "csi") {
+		return // not a query interval (a negative begin is cut at 0 by csi since repair C04-6)
 	}
 	want := cs.overlapping(q, accepted)
 	if len(want) == 0 {
@@ -647,6 +650,11 @@ func (cs *c04Case) build(r *Result, judgeAdd bool) *c04Run {
 func (cs *c04Case) ask(im c04Impl, q c04Query) ([]bgzf.Chunk, error, bool) {
 	var ans []bgzf.Chunk
 	var err error
+	if cs.Kind == "csi" && (q.End <= 0 || q.End > 1<<40 || q.Beg < 0) {
+		if ok, _ := c04CsiAnyQuerySafe(); !ok {
+			return nil, errors.New("not called: csi.reg2bins does not return for such queries"), false
+		}
+	}
 	o := guard(func() { ans, err = im.chunks(q) })
 	return ans, err, o.panicked
 }
@@ -661,7 +669,7 @@ func (cs *c04Case) answers(r *Result, im c04Impl, phase string, accepted []bool,
 			continue
 		}
 		if p {
-			if q.Beg >= 0 && q.Beg < q.End {
+			if q.Beg < q.End && (q.Beg >= 0 || cs.Kind == "csi") {
 				one := *cs
 				one.Queries = []c04Query{q}
 				r.fail(fmt.Sprintf("%s.chunks.panic.%s", cs.Kind, phase), fmt.Sprintf("Chunks(%d,%d,%d) panics", q.Rid, q.Beg, q.End), one)
@@ -1268,6 +1276,86 @@ func (g *c04Gen) queries(cs *c04Case, ms, depth, max, region int, thorough bool)
 	if rnd.coin(1, 10) { // not a query interval: only for the correspondence
 		cs.Queries = append(cs.Queries, c04Query{rnd.rng(0, maxRid), 100, 100})
 	}
+	// queries of any extent (repairs C04-5, C04-6): an end up to the largest int ("to the end of the reference"),
+	// empty and reversed queries, for CSI also a negative begin.  CSI calls that did not return before the
+	// repair are made only when the probe child (c04CsiAnyQuerySafe) has shown that they return.
+	lim := 1 << 29
+	if cs.Kind == "csi" {
+		lim = 1 << uint(ms+3*depth)
+	}
+	raw := func(rid, b, e int) {
+		hi, lo := e, b
+		if hi > lim {
+			hi = lim
+		}
+		if lo < 0 {
+			lo = 0
+		}
+		if hi > lo && (hi-lo)>>uint(ms) > 40000 {
+			b = hi - 4096<<uint(ms) // keep the finest level of the bin list short
+		}
+		cs.Queries = append(cs.Queries, c04Query{rid, b, e})
+	}
+	nAny := 3
+	if thorough {
+		nAny = 8
+	}
+	for k := 0; k < nAny && len(cs.Recs) > 0; k++ {
+		r := cs.Recs[rnd.intn(len(cs.Recs))]
+		if !r.Placed {
+			continue
+		}
+		huge := []int{math.MaxInt64, math.MaxInt64 - 1, 1 << 62, 1 << 46, 1<<46 + 4681<<14, 1 << 40, lim + 1, lim + 2}[rnd.intn(8)]
+		switch rnd.intn(6) {
+		case 0:
+			raw(r.Rid, r.Start, huge)
+		case 1:
+			raw(r.Rid, r.End-1, huge)
+		case 2:
+			raw(r.Rid, 0, huge)
+		case 3:
+			if cs.Kind == "csi" {
+				raw(r.Rid, -rnd.rng(1, 20000), r.Start+1)
+			} else {
+				raw(r.Rid, r.Start, huge)
+			}
+		case 4: // empty and reversed: nothing overlaps; every call returns
+			raw(r.Rid, []int{0, 5, r.Start, r.End}[rnd.intn(4)], []int{0, 5, r.Start}[rnd.intn(3)])
+			if q := &cs.Queries[len(cs.Queries)-1]; q.End > q.Beg {
+				q.Beg, q.End = q.End, q.Beg
+			}
+		case 5:
+			if cs.Kind == "csi" {
+				raw(r.Rid, -rnd.rng(1, 9), huge)
+			} else {
+				raw(r.Rid, 0, 0)
+			}
+		}
+	}
+}
+
+// c04CsiAnyQuerySafe: do csi.reg2bins calls with an end <= 0 or beyond the range return (in a child
+// process, see c16Probe)?  When they do not, such CSI queries are reported once and not made in-process.
+var c04CsiSafe struct {
+	once sync.Once
+	ok   bool
+	bad  string
+}
+
+func c04CsiAnyQuerySafe() (bool, string) {
+	c04CsiSafe.once.Do(func() {
+		qs := []c16Query{{0, 0, 14, 5}, {-5, 0, 14, 5}, {7, 3, 2, 3}, {0, math.MaxInt64, 14, 5}, {0, 1 << 46, 14, 5}, {-3, math.MaxInt64, 2, 3}}
+		ans := c16Probe(qs)
+		c04CsiSafe.ok = true
+		for _, q := range qs {
+			if a := ans[q.key()]; a == "diverges" || a == "" || a == "panic" {
+				c04CsiSafe.ok = false
+				c04CsiSafe.bad = fmt.Sprintf("csi reg2bins(%d,%d,%d,%d): %s", q.Beg, q.End, q.MinShift, q.Depth, a)
+				return
+			}
+		}
+	})
+	return c04CsiSafe.ok, c04CsiSafe.bad
 }
 
 // unsortedCase: input outside SortedInput (out of order, out of range, decreasing ids); only the
@@ -1498,10 +1586,13 @@ func c04MemGuard(r *Result) {
 func checkC04(c *ctx) {
 	r := c.res
 	c04MemGuard(r)
+	if ok, bad := c04CsiAnyQuerySafe(); !ok {
+		r.fail("csi.chunks.query-does-not-return", "csi.Index.Chunks cannot answer an empty, negative or very large query: "+bad+" (child process killed at its deadline or memory limit)", bad)
+	}
 	r.Rule = "cases: kind in {bai (bam.Index over sam.Records), csi (12 geometries incl. defaults, v1/v2, aux), tbx (shuffled name pool, header fields)} x " +
 		"sorted record sequences over 1-4 references (skipped ids, same starts, placed-unmapped, mate-unmapped, empty reference intervals = CIGAR 5I, unplaced records in between/at the end) with starts at k*2^(minShift+3l)+{-2..2} " +
 		"in a small (8 finest bins) / medium (600) / full-range region and lengths to the next tile edge -1/0/+1, one tile +-1, one bin of a random level +-1; synthetic monotone chunk layouts (incl. first chunk at offset 0, gaps); " +
-		"queries: single bases at record start/end/last tile, one base before/behind, covering, neighbouring reference, plus a boundary-biased grid; strategies identity/adjacent/squash/compress(n). " +
+		"queries: single bases at record start/end/last tile, one base before/behind, covering, neighbouring reference, plus a boundary-biased grid, plus queries of any extent (end up to MaxInt64, empty, reversed, negative begin for csi); strategies identity/adjacent/squash/compress(n). " +
 		"Every case is judged before write∘read, after it, and after MergeChunks. Real layouts: bai cases are also written with bam.Writer (sequence lengths 0..30000 so that records cross BGZF blocks), read back, indexed with the reader's LastChunk values, judged the same way and end to end with bam.Iterator over the returned chunks. " +
 		"A separate unsorted/out-of-range stream is compared with the model only. " +
 		"An evaluation is one (case, phase, query) judged by the brute-force oracle; non-trivial = at least one added record overlaps the query; distinct = distinct (kind, records, query, phase)."
